@@ -994,7 +994,7 @@ func tamperRun(c *Ctx, sp tamperSpec, fs []fault, count bool, api string) tamper
 
 func runGcmFormat(c *Ctx) error {
 	drawnIVs = nil
-	c.Res.Rule = "all base IVs drawn by SetSymmetricKey during the run pairwise distinct; send histories: cleartext prelude of every shape (none, one way, both ways, empty frames), SetSymmetricKey on both ends, interleaved sends in both directions (sizes incl. 0), secrets sent with encryption toggled off, counters started near 2^32 through NewStreamWithCryptoState; every emitted frame is opened by the independent refcodec (nonce = base IV + counter in the leading word, IV on first frame only, AAD = [digests] header) and refcodec-built frames are fed to the real receiver; distinct by op-sequence hash; non-trivial = ≥1 sealed frame"
+	c.Res.Rule = "all base IVs drawn by SetSymmetricKey during the run pairwise distinct, also in their last 12 bytes, every byte position varying; every (key, 16-byte nonce) pair of the run used once across endpoints, directions and sessions; send histories: cleartext prelude of every shape (none, one way, both ways, empty frames), SetSymmetricKey on both ends, interleaved sends in both directions (sizes incl. 0), secrets sent with encryption toggled off, counters started near 2^32 through NewStreamWithCryptoState; every emitted frame is opened by the independent refcodec (nonce = base IV + counter in the leading word, IV on first frame only, AAD = [digests] header) and refcodec-built frames are fed to the real receiver; distinct by op-sequence hash; non-trivial = ≥1 sealed frame"
 	var cases []Case
 	n := c.Pick(500, 8000)
 	for i := 0; i < n; i++ {
@@ -1006,20 +1006,71 @@ func runGcmFormat(c *Ctx) error {
 	for i := 0; i < c.Pick(150, 2000); i++ {
 		cases = append(cases, gcmRefSender(c, i))
 	}
-	// "the base IV (fresh and distinct for every direction and session)": every IV drawn by a
-	// SetSymmetricKey call in this run — both directions of every session — differs from every other
-	seenIV := map[[16]byte]string{}
-	for _, d := range drawnIVs {
-		if prev, dup := seenIV[d.iv]; dup {
-			c.Violate(Violation{Property: "C12", Key: "C12:base-iv-repeated", What: "two key installations (two directions of a session, or two sessions) used the same base IV: with one key per session this repeats key/nonce pairs",
-				Ops: []string{"# " + prev, "# " + d.where}, Expected: "a fresh random IV per SetSymmetricKey call", Observed: fmt.Sprintf("IV %x twice", d.iv)})
-			break
-		}
-		seenIV[d.iv] = d.where
-	}
-	c.Count(fmt.Sprintf("base-ivs-drawn:%d-all-distinct:%v", len(drawnIVs)/100*100, len(seenIV) == len(drawnIVs)))
+	checkDrawnIVs(c)
 	return diffBatch(c, "stream", cases, nil)
 }
+
+// checkDrawnIVs is the IV-freshness half of the C12 property oracle, on the base IVs that all
+// SetSymmetricKey calls of the run drew (read back from the wire: both directions of every session,
+// re-keying included). "Fresh" is crypto/rand's in the model, so this is judged on the implementation only:
+//   - no two draws are the same 16 bytes;
+//   - no two draws agree in their LAST 12 bytes: the nonce is the base IV with only its leading 32-bit
+//     word advanced by the frame counter, and both directions of a session (and every session resumed
+//     under one key) share the key, so two IVs with equal tails yield the same (key, nonce) pair as soon
+//     as word+counter line up — the freshness the format needs lives in the tail;
+//   - the draws look drawn: every one of the 16 byte positions takes many different values over the run
+//     (a constant position, a partly random IV such as rand.Read(iv[:4]), a time- or counter-derived IV
+//     or one derived from the key are not fresh). The bound is far below what uniform bytes give
+//     (>= 64 distinct values per position expected ~250 for >= 400 draws), so it never fires by chance.
+func checkDrawnIVs(c *Ctx) {
+	seenIV := map[[16]byte]string{}
+	seenTail := map[[12]byte]string{}
+	dupIV, dupTail := false, false
+	for _, d := range drawnIVs {
+		if prev, dup := seenIV[d.iv]; dup && !dupIV {
+			dupIV = true
+			c.Violate(Violation{Property: "C12", Key: "C12:base-iv-repeated", What: "two key installations (two directions of a session, or two sessions) used the same base IV: with one key per session this repeats key/nonce pairs",
+				Ops: append(append([]string{}, d.ops...), "# the next send carries the IV of: "+d.where, "# same IV as: "+prev), Expected: "a fresh random IV per SetSymmetricKey call", Observed: fmt.Sprintf("IV %x twice", d.iv)})
+		}
+		seenIV[d.iv] = d.where
+		var t [12]byte
+		copy(t[:], d.iv[4:])
+		if prev, dup := seenTail[t]; dup && !dupTail && !dupIV {
+			dupTail = true
+			c.Violate(Violation{Property: "C12", Key: "C12:base-iv-tail-repeated", What: "two key installations drew base IVs that agree in their last 12 bytes: only the leading 32-bit word separates their nonce sequences, and the frame counter is added to exactly that word — under the one key both directions of a session share, the (key, nonce) pairs coincide once word+counter line up",
+				Ops: append(append([]string{}, d.ops...), "# the next send carries the IV of: "+d.where, "# same tail as: "+prev), Expected: "base IVs whose 12-byte tails are pairwise distinct (16 fresh random bytes per SetSymmetricKey call)", Observed: fmt.Sprintf("tail %x twice (IVs differ at most in the leading word)", t)})
+		}
+		seenTail[t] = d.where
+	}
+	n := len(drawnIVs)
+	minDistinct := 0
+	if n >= 400 {
+		minDistinct = 64
+	} else if n >= 64 {
+		minDistinct = n / 8
+	}
+	if minDistinct > 0 && !dupIV {
+		for pos := 0; pos < 16; pos++ {
+			vals := map[byte]bool{}
+			for _, d := range drawnIVs {
+				vals[d.iv[pos]] = true
+			}
+			if len(vals) < minDistinct {
+				w0, w1 := drawnIVs[0], drawnIVs[n-1]
+				c.Violate(Violation{Property: "C12", Key: "C12:base-iv-not-random", What: fmt.Sprintf("byte %d of the base IV takes only %d different value(s) over %d key installations: the IV is not 16 fresh random bytes", pos, len(vals), n),
+					Ops: []string{"# " + w0.where + fmt.Sprintf(": IV %x", w0.iv), "# " + w1.where + fmt.Sprintf(": IV %x", w1.iv)},
+					Expected: fmt.Sprintf("every byte position takes >= %d different values over %d draws (uniform bytes give far more)", minDistinct, n),
+					Observed: fmt.Sprintf("position %d: %d distinct value(s)", pos, len(vals))})
+				break
+			}
+		}
+	}
+	c.Count(fmt.Sprintf("base-ivs-drawn:%d-all-distinct:%v-tails-distinct:%v", n/100*100, len(seenIV) == n, len(seenTail) == n))
+}
+
+// every (key, full 16-byte nonce) pair under which the reference decryptor opened a frame emitted by a
+// REAL stream during this engine run — all endpoints, directions, sessions and hand-offs of the run
+var runNonces = map[[20]byte]string{}
 
 func gcmHistory(c *Ctx, idx int) Case {
 	w := newWorld()
@@ -1093,6 +1144,30 @@ func checkOpenable(c *Ctx, w *sworld) {
 			c.Violate(Violation{Property: "C12", Key: "C12:unopenable", What: "a protected frame cannot be opened by the reference implementation of the documented format",
 				Ops: append([]string{}, w.ops[:i+1]...), Expected: "frame opens under nonce=IV+counter, AAD=[digests]header", Observed: r})
 			return
+		}
+	}
+	// "no key/nonce pair is used twice": across BOTH endpoints of the session (they share one key) and
+	// across every other session of the run keyed alike — the full 16-byte nonce, not only its leading word
+	for _, e := range []*sep{w.a, w.b} {
+		for _, sf := range e.sent {
+			if !sf.opened {
+				continue
+			}
+			var id [20]byte
+			binary.BigEndian.PutUint32(id[:4], uint32(sf.keyID))
+			copy(id[4:], sf.nonce[:])
+			here := fmt.Sprintf("endpoint %s, op %d", e.name, sf.opIdx)
+			if prev, dup := runNonces[id]; dup {
+				upto := sf.opIdx + 1
+				if upto > len(w.ops) {
+					upto = len(w.ops)
+				}
+				c.Violate(Violation{Property: "C12", Key: "C12:key-nonce-pair-reused", What: "two protected frames were sealed under the same key and the same 16-byte nonce (other direction of the session, or another session under the same key)",
+					Ops: append(append([]string{}, w.ops[:upto]...), "# same (key, nonce) earlier: "+prev), Expected: "every (key, nonce) pair used once",
+					Observed: fmt.Sprintf("key %d nonce %x at %s and at %s", sf.keyID, sf.nonce, prev, here)})
+				return
+			}
+			runNonces[id] = fmt.Sprintf("%s of case #%d", here, c.Res.Evaluations)
 		}
 	}
 	for _, e := range []*sep{w.a, w.b} {
